@@ -484,3 +484,480 @@ pub fn selfcheck(seed: u64, runs: u64) -> i32 {
         0
     }
 }
+
+// =============================================================================================
+// C09
+// =============================================================================================
+
+pub fn worker_c09(seed: u64, start: u64, stride: u64, count: u64, deadline_s: u64, child_pct: u64, passthrough: bool) {
+    use crate::c09;
+    warm_up();
+    let out = std::io::stdout();
+    let t0 = Instant::now();
+    let mut builds = 0u64;
+    let mut reloads = 0u64;
+    let mut childs = 0u64;
+    let mut done = 0u64;
+    let mut orders: BTreeSet<u64> = BTreeSet::new();
+    let mut multi_order_worlds = 0u64;
+    let mut bytes_total = 0u64;
+    for k in 0..count {
+        if t0.elapsed().as_secs() >= deadline_s {
+            break;
+        }
+        let idx = start + k * stride;
+        let with_child = child_pct > 0 && (crate::rng::mix3(seed, 77, idx) % 100) < child_pct;
+        let (t, o) = c09::run_seed(seed, idx, with_child, passthrough && with_child);
+        done += 1;
+        builds += o.builds;
+        reloads += o.reloads;
+        childs += o.child_builds;
+        bytes_total += o.bytes_len as u64;
+        if o.orders.len() >= 2 {
+            multi_order_worlds += 1;
+        }
+        for x in &o.orders {
+            orders.insert(*x);
+        }
+        let mut l = out.lock();
+        // nontrivial: >= 20 rules serialized and >= 2 distinct induced iteration orders among the builds
+        let nontrivial = t.world.rules.len() >= 20 && o.orders.len() >= 2;
+        let _ = writeln!(l, "R {} {:x} {:x} {:x} {}", idx, o.digest, 0, o.digest, nontrivial as u8);
+        if k < 2 && start < 2 {
+            let _ = writeln!(l, "E {}", json!({"seed": t.seed, "n_rules": t.world.rules.len(), "first_rules": t.world.rules.iter().take(8).map(|r| r.text()).collect::<Vec<_>>(), "knobs": t.world.knobs, "serialized_len": o.bytes_len, "distinct_iteration_orders_induced": o.orders.len()}));
+        }
+        if let Some(v) = o.violation {
+            let mut t = t;
+            t.violation = Some(v);
+            let _ = writeln!(l, "V {}", serde_json::to_string(&t).unwrap());
+        }
+    }
+    let mut stats: BTreeMap<String, u64> = BTreeMap::new();
+    stats.insert("builds".into(), builds);
+    stats.insert("reloads".into(), reloads);
+    stats.insert("child_process_builds".into(), childs);
+    stats.insert("worlds_with_2plus_iteration_orders".into(), multi_order_worlds);
+    stats.insert("serialized_bytes_total".into(), bytes_total);
+    let mut l = out.lock();
+    let _ = writeln!(l, "S {}", json!({"runs": done, "stats": stats, "states": orders.into_iter().collect::<Vec<u64>>()}));
+}
+
+pub fn run_c09_check(tier: &str, seed: u64, workers: u64, runs_override: Option<u64>) -> i32 {
+    use crate::c09;
+    let t0 = Instant::now();
+    let prop = "C09";
+    let findings = load_findings();
+    let quick = tier != "thorough";
+    let total = runs_override.unwrap_or(if quick { 12_000 } else { 400_000 });
+    println!("VERIF_SEED={} property={} tier={} worlds={} workers={}", seed, prop, tier, total, workers);
+    let (kf_lines, mut violations, witness_report) = check_witnesses(prop, &findings, "replay-c09");
+    for l in &kf_lines {
+        println!("{}", l);
+    }
+    let exe = self_exe();
+    let mut children = vec![];
+    for w in 0..workers {
+        let count = (total + workers - 1 - w) / workers;
+        if count == 0 {
+            continue;
+        }
+        let mut cmd = Command::new(&exe);
+        cmd.arg("worker-c09")
+            .args(["--seed", &seed.to_string(), "--start", &w.to_string(), "--stride", &workers.to_string(), "--count", &count.to_string()])
+            .args(["--deadline", if quick { "150" } else { "1500" }, "--child-pct", "5"]);
+        if !quick {
+            cmd.arg("--passthrough");
+        }
+        children.push(cmd.stdout(Stdio::piped()).stderr(Stdio::inherit()).spawn().expect("spawn"));
+    }
+    let mut agg = Agg::default();
+    let mut harness_error = false;
+    for mut c in children {
+        let so = c.stdout.take().unwrap();
+        for l in BufReader::new(so).lines().map_while(Result::ok) {
+            parse_worker_line(&l, &mut agg);
+        }
+        if !c.wait().map(|s| s.success()).unwrap_or(false) {
+            eprintln!("harness error: a C09 worker died");
+            harness_error = true;
+        }
+    }
+    let replays_dir = format!("{}/replays", VERIF_DIR);
+    let _ = std::fs::create_dir_all(&replays_dir);
+    let mut seen = BTreeSet::new();
+    for t in &agg.violations {
+        let v = t.violation.as_ref().unwrap();
+        let class = v.class();
+        if seen.contains(&class) || seen.len() >= 3 {
+            continue;
+        }
+        seen.insert(class.clone());
+        let raw = format!("{}/{}-{}-raw.json", replays_dir, prop, t.seed);
+        std::fs::write(&raw, serde_json::to_string(t).unwrap()).unwrap();
+        let minp = format!("{}/{}-{}.json", replays_dir, prop, t.seed);
+        let (code, out) = run_child(&["minimize-c09", &raw, &minp]);
+        let path = if code == 0 && std::path::Path::new(&minp).exists() { minp.clone() } else { raw.clone() };
+        let (rc, rout) = run_child(&["replay-c09", &path]);
+        if rc == 1 && rout.contains("REPRODUCED") {
+            if path == minp {
+                let _ = std::fs::remove_file(&raw);
+            }
+            violations.push((format!("{} / {} / {} ({})", class.0, class.1, v.what, v.got), path));
+        } else {
+            eprintln!("harness error: C09 violation of world seed {} did not replay (minimise exit {}, replay exit {}): {} {}", t.seed, code, rc, out, rout);
+            harness_error = true;
+        }
+    }
+    let wall = t0.elapsed().as_secs_f64();
+    let g = |k: &str| agg.stats.get(k).copied().unwrap_or(0);
+    let ev = json!({
+        "property_id": prop,
+        "tier": if quick { "quick" } else { "thorough" },
+        "seed": seed,
+        "level": "exploration",
+        "wall_s": wall,
+        "violations": violations.len(),
+        "coverage": {
+            "evaluations": agg.runs,
+            "distinct_nontrivial": agg.nontrivial_shapes.len(),
+            "rule": format!("one evaluation = one generated rule list (30-200 lines, network + cosmetic, all rule shapes) built {} times on fresh threads under different simulated hash keys, allocator policies and order-preserving construction chunkings (and in a child process for ~5% of the lists; in the thorough tier that child uses the kernel's real getrandom), all buffers compared byte for byte; then 3 reload variants (other hash key; other optimise knob on the receiving engine; tag round trip) and a tags-enabled build pair + reload must reproduce the buffer. Non-trivial: >= 20 rules and >= 2 distinct HashMap iteration orders actually induced among the builds (measured with a probe map); distinct = distinct serialized buffer.", c09::K_BUILDS),
+            "samples": agg.samples,
+            "exhaustive": false,
+            "runs_per_hour": if wall > 0.0 { (agg.runs as f64 / wall * 3600.0) as u64 } else { 0 },
+            "engine_builds": g("builds"),
+            "reloads": g("reloads"),
+            "faults_injected": {
+                "hash_key_changes": g("builds") + g("reloads"),
+                "child_process_builds": g("child_process_builds"),
+                "allocator_policy_changes": g("builds"),
+                "construction_chunking_changes": g("builds"),
+            },
+            "worlds_with_2plus_iteration_orders": g("worlds_with_2plus_iteration_orders"),
+            "distinct_iteration_orders_of_probe_map": agg.states.len(),
+            "serialized_bytes_total": g("serialized_bytes_total"),
+            "witnesses": witness_report,
+            "components_real": COMPONENTS_REAL,
+            "components_stub": ["libc getrandom (hash seeds): interposed; thorough tier additionally builds in child processes with the real kernel getrandom", "global allocator for the rule size class", "disk: in-memory buffers"],
+        },
+        "assumptions": ["stability across crate versions or platforms is not claimed (the property does not ask for it)", "std's RandomState is the only source of iteration-order nondeterminism in the crate (seahash-keyed maps are fixed-seed)"],
+    });
+    write_evidence(prop, &ev);
+    if harness_error {
+        return 2;
+    }
+    if !violations.is_empty() {
+        for (what, path) in &violations {
+            println!("VIOLATION property={} replay={}", prop, path);
+            println!("  {}", what);
+        }
+        return 1;
+    }
+    println!("OK property={} worlds={} distinct_nontrivial={} wall_s={:.1}", prop, agg.runs, agg.nontrivial_shapes.len(), wall);
+    0
+}
+
+// =============================================================================================
+// C10
+// =============================================================================================
+
+pub struct Crumb {
+    ptr: *mut u64,
+}
+unsafe impl Send for Crumb {}
+impl Crumb {
+    pub fn open(path: &str) -> Crumb {
+        use std::os::unix::io::AsRawFd;
+        let f = std::fs::OpenOptions::new().read(true).write(true).create(true).truncate(true).open(path).expect("crumb file");
+        f.set_len(64).unwrap();
+        let p = unsafe { libc::mmap(std::ptr::null_mut(), 64, libc::PROT_READ | libc::PROT_WRITE, libc::MAP_SHARED, f.as_raw_fd(), 0) };
+        assert!(p != libc::MAP_FAILED);
+        Crumb { ptr: p as *mut u64 }
+    }
+    pub fn set(&self, a: u64, b: u64, c: u64, n: u64) {
+        unsafe {
+            std::ptr::write_volatile(self.ptr, a);
+            std::ptr::write_volatile(self.ptr.add(1), b);
+            std::ptr::write_volatile(self.ptr.add(2), c);
+            std::ptr::write_volatile(self.ptr.add(3), n);
+            std::ptr::write_volatile(self.ptr.add(4), 1);
+        }
+    }
+    pub fn read(path: &str) -> Option<(u64, u64, u64, u64)> {
+        let b = std::fs::read(path).ok()?;
+        if b.len() < 40 {
+            return None;
+        }
+        let g = |i: usize| u64::from_le_bytes(b[8 * i..8 * i + 8].try_into().unwrap());
+        if g(4) != 1 {
+            return None;
+        }
+        Some((g(0), g(1), g(2), g(3)))
+    }
+}
+
+#[allow(clippy::too_many_arguments)]
+pub fn worker_c10(seed: u64, buffers: u64, n_sampled: u64, start: u64, stride: u64, skip_until: u64, deadline_s: u64, crumb_path: Option<String>, keys_path: Option<String>) {
+    use crate::c10::*;
+    warm_up();
+    let out = std::io::stdout();
+    let t0 = Instant::now();
+    let crumb = crumb_path.as_ref().map(|p| Crumb::open(p));
+    let mut st = C10Stats::default();
+    let mut n: u64 = 0;
+    let mut nviol = 0u64;
+    let mut keys: Vec<u64> = vec![];
+    let mut samples = 0;
+    crate::seams::hashkey_set(seed ^ 0xc10);
+    let h = std::thread::Builder::new().stack_size(32 << 20).spawn(move || {
+        crate::exec::set_quiet(true);
+        'outer: for bi in 0..buffers {
+            let bs = buffer_set(seed, bi, n_sampled);
+            let mut target = Target::build(&bs.target_world, &bs.target_tags);
+            // the pristine buffers themselves must load (fault-free configuration of the same path)
+            for (ki, kind) in KINDS.iter().enumerate() {
+                let cnt = bs.space.count(kind);
+                for idx in 0..cnt {
+                    let mine = n % stride == start && n >= skip_until;
+                    n += 1;
+                    if !mine {
+                        continue;
+                    }
+                    if t0.elapsed().as_secs() >= deadline_s {
+                        break 'outer;
+                    }
+                    let bytes = bs.space.case(kind, idx);
+                    if let Some(c) = &crumb {
+                        c.set(bi, ki as u64, idx, n - 1);
+                    }
+                    if bytes != bs.space.a {
+                        keys.push(distinct_key(kind, &bytes));
+                    }
+                    let v = run_case(&mut target, kind, &bytes, *kind == "lost_write", &mut st);
+                    if samples < 3 && start == 0 && idx % 97 == 5 {
+                        samples += 1;
+                        let mut l = out.lock();
+                        let _ = writeln!(l, "E {}", json!({"buffer": bi, "buffer_len": bs.space.a.len(), "fault": kind, "index": idx, "corrupt_len": bytes.len(), "first_bytes_hex": hex(&bytes[..bytes.len().min(24)]), "target_rules": bs.target_world.rules.len(), "target_tags": bs.target_tags}));
+                    }
+                    if let Some(v) = v {
+                        nviol += 1;
+                        if nviol <= 6 {
+                            let rp = replay_of(&bs, kind, idx, &bytes, Some(v));
+                            let mut l = out.lock();
+                            let _ = writeln!(l, "W {}", serde_json::to_string(&rp).unwrap());
+                        }
+                    }
+                }
+            }
+        }
+        (st, keys, nviol)
+    }).expect("spawn");
+    let (st, keys, nviol) = h.join().expect("c10 worker thread");
+    let out = std::io::stdout();
+    if let Some(kp) = keys_path {
+        let mut b = Vec::with_capacity(keys.len() * 8);
+        for k in &keys {
+            b.extend_from_slice(&k.to_le_bytes());
+        }
+        let _ = std::fs::write(kp, b);
+    }
+    let mut l = out.lock();
+    let _ = writeln!(l, "T {}", json!({"stats": st, "violations": nviol}));
+}
+
+pub fn run_c10_check(tier: &str, seed: u64, workers: u64, buffers_override: Option<u64>) -> i32 {
+    use crate::c10::*;
+    let t0 = Instant::now();
+    let prop = "C10";
+    let findings = load_findings();
+    let quick = tier != "thorough";
+    let buffers = buffers_override.unwrap_or(if quick { 16 } else { 400 });
+    let n_sampled: u64 = if quick { 400 } else { 5000 };
+    println!("VERIF_SEED={} property={} tier={} buffers={} workers={}", seed, prop, tier, buffers, workers);
+    let (kf_lines, mut violations, witness_report) = check_witnesses(prop, &findings, "replay-c10");
+    for l in &kf_lines {
+        println!("{}", l);
+    }
+    let scratch = format!("{}/target/scratch", VERIF_DIR);
+    let _ = std::fs::create_dir_all(&scratch);
+    let exe = self_exe();
+    let mut total = C10Stats::default();
+    let mut samples: Vec<Value> = vec![];
+    let mut replays: Vec<C10Replay> = vec![];
+    let mut harness_error = false;
+    let mut all_keys: std::collections::HashSet<u64> = std::collections::HashSet::new();
+    let mut deaths = 0u64;
+    // each worker may be respawned after a death; (worker, skip_until)
+    let mut pending: Vec<(u64, u64, u32)> = (0..workers).map(|w| (w, 0u64, 0u32)).collect();
+    while !pending.is_empty() {
+        let mut running = vec![];
+        for (w, skip, gen) in pending.drain(..) {
+            let crumb = format!("{}/c10-crumb-{}-{}", scratch, std::process::id(), w);
+            let keys = format!("{}/c10-keys-{}-{}-{}", scratch, std::process::id(), w, gen);
+            let _ = std::fs::remove_file(&crumb);
+            let child = Command::new(&exe)
+                .arg("worker-c10")
+                .args(["--seed", &seed.to_string(), "--buffers", &buffers.to_string(), "--sampled", &n_sampled.to_string()])
+                .args(["--start", &w.to_string(), "--stride", &workers.to_string(), "--skip-until", &skip.to_string()])
+                .args(["--deadline", if quick { "200" } else { "1700" }, "--breadcrumb", &crumb, "--keys", &keys])
+                .stdout(Stdio::piped())
+                .stderr(Stdio::null())
+                .spawn()
+                .expect("spawn");
+            running.push((w, gen, crumb, keys, child));
+        }
+        let mut handles = vec![];
+        for (w, gen, crumb, keys, mut child) in running {
+            handles.push(std::thread::spawn(move || {
+                let so = child.stdout.take().unwrap();
+                let lines: Vec<String> = BufReader::new(so).lines().map_while(Result::ok).collect();
+                let st = child.wait().expect("wait");
+                (w, gen, crumb, keys, lines, st)
+            }));
+        }
+        for h in handles {
+            let (w, gen, crumb, keys, lines, status) = h.join().unwrap();
+            let mut finished = false;
+            for l in &lines {
+                if let Some(rest) = l.strip_prefix("W ") {
+                    if let Ok(rp) = serde_json::from_str::<C10Replay>(rest) {
+                        replays.push(rp);
+                    }
+                } else if let Some(rest) = l.strip_prefix("E ") {
+                    if samples.len() < 3 {
+                        if let Ok(v) = serde_json::from_str::<Value>(rest) {
+                            samples.push(v);
+                        }
+                    }
+                } else if let Some(rest) = l.strip_prefix("T ") {
+                    if let Ok(v) = serde_json::from_str::<Value>(rest) {
+                        finished = true;
+                        if let Ok(s) = serde_json::from_value::<C10Stats>(v["stats"].clone()) {
+                            total.cases += s.cases;
+                            total.load_err += s.load_err;
+                            total.load_ok += s.load_ok;
+                            total.load_ok_on_damaged += s.load_ok_on_damaged;
+                            total.max_request = total.max_request.max(s.max_request);
+                            total.max_peak = total.max_peak.max(s.max_peak);
+                            total.rebuilds += s.rebuilds;
+                            for (k, x) in s.per_kind {
+                                *total.per_kind.entry(k).or_insert(0) += x;
+                            }
+                        }
+                    }
+                }
+            }
+            if let Ok(b) = std::fs::read(&keys) {
+                for c in b.chunks_exact(8) {
+                    all_keys.insert(u64::from_le_bytes(c.try_into().unwrap()));
+                }
+            }
+            let _ = std::fs::remove_file(&keys);
+            if !finished || !status.success() {
+                // the worker process died: the case in the breadcrumb killed it
+                deaths += 1;
+                match Crumb::read(&crumb) {
+                    Some((bi, ki, idx, n)) if (ki as usize) < KINDS.len() => {
+                        let bs = buffer_set(seed, bi, n_sampled);
+                        let kind = KINDS[ki as usize];
+                        let bytes = bs.space.case(kind, idx);
+                        let v = Violation {
+                            property: "C10".into(),
+                            oracle: "no-abort".into(),
+                            step: 0,
+                            op: "deserialize".into(),
+                            what: format!("abort worker process died ({:?}) [{} len={}]", status, kind, bytes.len()),
+                            got: "process death (abort, stack overflow or refused allocation above 1 GiB)".into(),
+                            want: "Ok or Err".into(),
+                        };
+                        replays.push(replay_of(&bs, kind, idx, &bytes, Some(v)));
+                        if gen < 12 {
+                            pending.push((w, n + 1, gen + 1));
+                        } else {
+                            eprintln!("harness error: worker {} died more than 12 times", w);
+                            harness_error = true;
+                        }
+                    }
+                    _ => {
+                        eprintln!("harness error: C10 worker {} died without a breadcrumb ({:?})", w, status);
+                        harness_error = true;
+                    }
+                }
+            }
+            let _ = std::fs::remove_file(&crumb);
+        }
+    }
+    // replay files: one per class (at most 4), minimised, verified in a fresh process
+    let replays_dir = format!("{}/replays", VERIF_DIR);
+    let _ = std::fs::create_dir_all(&replays_dir);
+    let mut seen = BTreeSet::new();
+    let n_raw_violations = replays.len();
+    for rp in &replays {
+        let v = rp.violation.as_ref().unwrap();
+        let class = (v.oracle.clone(), rp.kind.clone());
+        let class_o = v.oracle.clone();
+        if seen.iter().any(|(o, _): &(String, String)| *o == class_o) || seen.len() >= 4 {
+            continue;
+        }
+        seen.insert(class);
+        let raw = format!("{}/C10-{}-{}-{}-raw.json", replays_dir, rp.seed, rp.kind, rp.index);
+        std::fs::write(&raw, serde_json::to_string(rp).unwrap()).unwrap();
+        let minp = format!("{}/C10-{}-{}-{}.json", replays_dir, rp.seed, rp.kind, rp.index);
+        let (code, _out) = if v.oracle == "no-abort" { (9, String::new()) } else { run_child(&["minimize-c10", &raw, &minp]) };
+        let path = if code == 0 && std::path::Path::new(&minp).exists() { minp.clone() } else { raw.clone() };
+        let (rc, rout) = run_child(&["replay-c10", &path]);
+        let reproduced = (rc == 1 && rout.contains("REPRODUCED")) || (v.oracle == "no-abort" && rc != 0 && rc != 2);
+        if reproduced {
+            if path == minp {
+                let _ = std::fs::remove_file(&raw);
+            }
+            violations.push((format!("{} / {} ({})", v.oracle, v.what, v.got), path));
+        } else {
+            eprintln!("harness error: C10 violation [{} {} #{}] did not replay (exit {}): {}", v.oracle, rp.kind, rp.index, rc, rout);
+            harness_error = true;
+        }
+    }
+    let wall = t0.elapsed().as_secs_f64();
+    let ev = json!({
+        "property_id": prop,
+        "tier": if quick { "quick" } else { "thorough" },
+        "seed": seed,
+        "level": "fault_enumeration",
+        "wall_s": wall,
+        "violations": violations.len(),
+        "coverage": {
+            "evaluations": total.cases,
+            "distinct_nontrivial": all_keys.len(),
+            "rule": "one evaluation = one (buffer, fault) case loaded into a non-empty engine (own rules, enabled tags) under catch_unwind and allocation accounting. For every sampled buffer the single-fault space is enumerated completely for: torn write (every prefix), bit rot (every single-bit flip), stale tail (new prefix + old image suffix at every cut), lost write, marker substitution (20 replacement markers at every msgpack value offset found by a walker); zeroed ranges, duplicated ranges, multi-byte corruption and free-form strings (every header variant, hostile length fields, deep nesting) are sampled. Non-trivial and distinct: distinct (fault kind, corrupt byte string) pairs that differ from the pristine buffer, counted over all workers.",
+            "samples": samples,
+            "exhaustive": true,
+            "exhaustive_scope": format!("per sampled buffer, kinds {:?} are enumerated completely; buffers and the other kinds are sampled", EXHAUSTIVE_KINDS),
+            "buffers": buffers,
+            "faults_injected": total.per_kind,
+            "load_returned_err": total.load_err,
+            "load_returned_ok": total.load_ok,
+            "load_returned_ok_on_damaged_bytes": total.load_ok_on_damaged,
+            "largest_single_allocation_request_bytes": total.max_request,
+            "largest_peak_live_bytes_during_a_load": total.max_peak,
+            "worker_process_deaths": deaths,
+            "raw_violations": n_raw_violations,
+            "cases_per_hour": if wall > 0.0 { (total.cases as f64 / wall * 3600.0) as u64 } else { 0 },
+            "witnesses": witness_report,
+            "components_real": COMPONENTS_REAL,
+            "components_stub": ["disk: SimDisk fault generator between serialize_raw and deserialize", "global allocator: accounting of every request during the load, refusal above 1 GiB", "process boundary: workers are child processes so that aborts are observed"],
+        },
+        "assumptions": ["allocation bounds: largest request <= max(8 MiB, 256 x len), peak live <= 16 MiB + 512 x len", "C10 does not require corruption to be detected: Ok on damaged bytes is accepted if the engine is total afterwards"],
+    });
+    write_evidence(prop, &ev);
+    if harness_error {
+        return 2;
+    }
+    if !violations.is_empty() {
+        for (what, path) in &violations {
+            println!("VIOLATION property={} replay={}", prop, path);
+            println!("  {}", what);
+        }
+        return 1;
+    }
+    println!("OK property={} cases={} distinct_nontrivial={} wall_s={:.1}", prop, total.cases, all_keys.len(), wall);
+    0
+}
